@@ -16,6 +16,11 @@ From crates/usvg/src/parser/{converter.rs, switch.rs, shapes.rs, svgtree/mod.rs,
   shape_len_checks, poly_min_points   the `is_valid_length` tests and the point-count test of shapes.rs
   gen_prefixes            the format strings of Cache::gen_*_id
   attr_ns_kept            namespaces whose attributes parse_svg_element copies
+  special_attr_lookups    how the `style`, `id` and `class` XML attributes are looked up (plain-string roxmltree lookup =
+                          attribute without a namespace; a local-name comparison would accept foreign-namespace ones)
+  style_element_lookup    how resolve_css finds `style` elements
+  css_facts               simplecss::Element for XmlNode: parent_element / prev_sibling_element delegate to roxmltree's
+                          element navigation (comments, PIs and text are skipped), :first-child = no previous sibling element
 
 Every table is cut out of the current source by anchors; the model (Model/Converter.v) evaluates the
 tables, and Proofs/Converter.v has lock lemmas for the step orders.  A missing anchor is a broken tie.
@@ -98,6 +103,9 @@ DEFAULTS = {
     'poly_min_points': 'N := 2%N',
     'gen_prefixes': 'list string := ["linearGradient"; "radialGradient"; "pattern"; "clipPath"; "mask"; "filter"; "image"]',
     'attr_ns_kept': 'list attr_ns := [ANS_None; ANS_Svg; ANS_Xlink; ANS_Xml]',
+    'special_attr_lookups': 'list (special_attr * lookup_kind) := [(SA_Style, LK_NoNamespace); (SA_Id, LK_NoNamespace); (SA_Class, LK_NoNamespace)]',
+    'style_element_lookup': 'lookup_kind := LK_SvgNamespace',
+    'css_facts': 'list css_fact := [CF_ParentElement; CF_PrevSiblingElement; CF_FirstChildViaPrevSibling; CF_AttrMatchNoNamespace]',
 }
 
 
@@ -387,3 +395,51 @@ def extract(api, src, put, group):
         put('attr_ns_kept', 'list attr_ns', "%s" % coq_list(ns))
 
     group(sec_11)
+
+    def sec_special():  # special attribute / element lookups and the CSS element adapter
+        lk = []
+        b = body_of(api, stp, 'parse_svg_element')
+        if re.search(r"if let Some\(value\) = xml_node\.attribute\(\"style\"\) \{", b):
+            lk.append('(SA_Style, LK_NoNamespace)')
+        elif re.search(r"xml_node\.attributes\(\)\.find\(\|a\| a\.name\(\) == \"style\"\)", b):
+            lk.append('(SA_Style, LK_LocalNameOnly)')
+        else:
+            raise Miss("parse_svg_element: lookup of the `style` attribute")
+        if len(re.findall(r"\"style\"", b)) != 1:
+            raise Miss("parse_svg_element: `style` is mentioned more than once")
+        b = body_of(api, stp, 'parse')
+        if re.search(r"for node in xml\.descendants\(\) \{ if let Some\(id\) = node\.attribute\(\"id\"\) \{", b):
+            lk.append('(SA_Id, LK_NoNamespace)')
+        elif re.search(r"a\.name\(\) == \"id\"", b):
+            lk.append('(SA_Id, LK_LocalNameOnly)')
+        else:
+            raise Miss("parse: lookup of the `id` attribute for the link map")
+        sn = norm(stp)
+        m = need(r"fn attribute_matches\(&self, local_name: &str, operator: simplecss::AttributeOperator\) -> bool \{ "
+                 r"match (self\.0\.attribute\(local_name\)|[^{]*) \{ Some\(value\) => operator\.matches\(value\), None => false, \} \}", sn,
+                 "XmlNode::attribute_matches")
+        if m.group(1) == 'self.0.attribute(local_name)':
+            lk.append('(SA_Class, LK_NoNamespace)')
+        else:
+            lk.append('(SA_Class, LK_LocalNameOnly)')
+        put('special_attr_lookups', 'list (special_attr * lookup_kind)', coq_list(lk))
+        b = body_of(api, stp, 'resolve_css')
+        if re.search(r"xml\.descendants\(\)\.filter\(\|n\| n\.has_tag_name\(\"style\"\)\)", b):
+            put('style_element_lookup', 'lookup_kind', 'LK_LocalNameOnly')
+        elif re.search(r"n\.has_tag_name\(\(SVG_NS, \"style\"\)\)", b):
+            put('style_element_lookup', 'lookup_kind', 'LK_SvgNamespace')
+        else:
+            raise Miss("resolve_css: lookup of `style` elements")
+        facts = []
+        if re.search(r"fn parent_element\(&self\) -> Option<Self> \{ self\.0\.parent_element\(\)\.map\(XmlNode\) \}", sn):
+            facts.append('CF_ParentElement')
+        if re.search(r"fn prev_sibling_element\(&self\) -> Option<Self> \{ self\.0\.prev_sibling_element\(\)\.map\(XmlNode\) \}", sn):
+            facts.append('CF_PrevSiblingElement')
+        if re.search(r"simplecss::PseudoClass::FirstChild => self\.prev_sibling_element\(\)\.is_none\(\), _ => false,", sn):
+            facts.append('CF_FirstChildViaPrevSibling')
+        if m.group(1) == 'self.0.attribute(local_name)':
+            facts.append('CF_AttrMatchNoNamespace')
+        put('css_facts', 'list css_fact', coq_list(facts))
+        if len(facts) != 4:
+            raise Miss("simplecss::Element for XmlNode: %d of 4 facts found (%s)" % (len(facts), ', '.join(facts)))
+    group(sec_special)
